@@ -189,6 +189,20 @@ func (ex *Exec) intrinsic(fn *ssa.Function, args []Value) (Value, bool) {
 		// progress text of the zmodem bridge (float formatting): outside every claim
 		ex.stubsUsed[name]++
 		return nil, true
+	case "internal/bytealg.CountString", "internal/bytealg.Count":
+		ex.stubsUsed[name]++
+		var hay []*Term
+		if st, ok := args[0].(Str); ok {
+			hay = st.b
+		} else {
+			hay = ex.sliceBytes(args[0].(Slice))
+		}
+		c := args[1].(*Term)
+		n := ex.ts.Const(64, 0)
+		for _, b := range hay {
+			n = ex.ts.Bin(OpAdd, n, ex.ts.Ite(ex.ts.Eq(b, c), ex.ts.Const(64, 1), ex.ts.Const(64, 0)))
+		}
+		return ex.ts.Const(64, ex.concretize(n)), true
 	case "strings.Clone", "internal/stringslite.Clone":
 		return args[0], true // strings are immutable values here
 	case "bytes.Contains":
